@@ -4,6 +4,9 @@ current /repo HEAD and store it under /verif/seeded/<prop>-<a|b>/."""
 import json, os, shutil, subprocess, sys
 wt, which = sys.argv[1], sys.argv[2]
 env = dict(os.environ, GOFLAGS='-mod=mod', GOPROXY='off')
+if len(sys.argv) > 1 and 'C15' in sys.argv[1]:
+    # pkg/node: the repo's own runner skips the two tests that hang / always fail
+    env['AM_TEST_RUNNER'] = '1'
 def sh(cmd, cwd=wt, timeout=1800):
     p = subprocess.run(cmd, shell=True, cwd=cwd, env=env, stdout=subprocess.PIPE, stderr=subprocess.STDOUT, text=True, timeout=timeout)
     return p.returncode, p.stdout
